@@ -103,13 +103,19 @@ theorem mem_swapIfInBounds {α : Type} (a : Array α) (i j : Nat) (x : α) :
     · rfl
   · rfl
 
+/-- all children with δ = 0 carry the same move (generation stops at the first one, and only the child
+searched last can newly get δ = 0) -/
+def SameMove (cs : List (Child S M)) : Prop :=
+  ∀ c ∈ cs, ∀ c' ∈ cs, c.data.bounds.delta = 0 → c'.data.bounds.delta = 0 → c.move = c'.move
+
 theorem genChildren_ok [DecidableEq M] {two : Bool} {Dom : S → Prop} (hk : DfpnOK G hash threats att two Dom)
     (killer : Option M) {g : S} (hg : Dom g) :
     ∀ (ms : List M) (st : St M) (children : Array (Child S M)) (st' : St M) (children' : Array (Child S M)),
       (∀ m ∈ ms, m ∈ G.moves g) → TableOK G hash att two Dom st →
       (∀ c ∈ children.toList, ChildOK (G := G) (hash := hash) (att := att) (cleanOf two st) g c) →
+      (∀ c ∈ children.toList, c.data.bounds.delta ≠ 0) →
       genChildren G hash threats att killer g ms st children = .ok (st', children') →
-      SameTable st st' ∧
+      SameTable st st' ∧ SameMove children'.toList ∧
       (∀ c ∈ children'.toList, ChildOK (G := G) (hash := hash) (att := att) (cleanOf two st) g c) ∧
       (∀ c ∈ children.toList, c ∈ children'.toList) ∧
       ((∀ m ∈ ms, ∀ s', G.apply g m = some s' → ∃ c ∈ children'.toList, c.move = m) ∨
@@ -117,18 +123,18 @@ theorem genChildren_ok [DecidableEq M] {two : Bool} {Dom : S → Prop} (hk : Dfp
   intro ms
   induction ms with
   | nil =>
-    intro st children st' children' _ _ hch hrun
+    intro st children st' children' _ _ hch hnz hrun
     simp only [genChildren, Except.ok.injEq, Prod.mk.injEq] at hrun
     obtain ⟨rfl, rfl⟩ := hrun
-    exact ⟨⟨rfl, rfl, rfl, rfl⟩, hch, fun c hc => hc, Or.inl (fun m hm => by cases hm)⟩
+    exact ⟨⟨rfl, rfl, rfl, rfl⟩, fun c hc _ _ hz _ => absurd hz (hnz c hc), hch, fun c hc => hc, Or.inl (fun m hm => by cases hm)⟩
   | cons m ms ih =>
-    intro st children st' children' hms ht hch hrun
+    intro st children st' children' hms ht hch hnz hrun
     rw [genChildren_cons] at hrun
     have hms' : ∀ m' ∈ ms, m' ∈ G.moves g := fun m' hm' => hms m' (List.mem_cons_of_mem _ hm')
     split at hrun
     · rename_i happ
-      obtain ⟨h1, h2, h3, h4⟩ := ih st children st' children' hms' ht hch hrun
-      refine ⟨h1, h2, h3, ?_⟩
+      obtain ⟨h1, h0, h2, h3, h4⟩ := ih st children st' children' hms' ht hch hnz hrun
+      refine ⟨h1, h0, h2, h3, ?_⟩
       rcases h4 with h4 | h4
       · left
         intro m' hm' s' hs'
@@ -166,13 +172,25 @@ theorem genChildren_ok [DecidableEq M] {two : Bool} {Dom : S → Prop} (hk : Dfp
         · rename_i hz
           simp only [Except.ok.injEq, Prod.mk.injEq] at hrun
           obtain ⟨rfl, rfl⟩ := hrun
-          refine ⟨hsame, hch1, fun c hc => (hmem c).mpr (Or.inl hc), Or.inr ⟨_, (hmem _).mpr (Or.inr rfl), ?_⟩⟩
-          simpa using hz
-        · have ht1 : TableOK G hash att two Dom st1 := ht.congr hsame.1 hsame.2.1
+          refine ⟨hsame, ?_, hch1, fun c hc => (hmem c).mpr (Or.inl hc), Or.inr ⟨_, (hmem _).mpr (Or.inr rfl), ?_⟩⟩
+          · intro c hc c' hc' hcz hcz'
+            rcases (hmem c).mp hc with hc | rfl
+            · exact absurd hcz (hnz c hc)
+            · rcases (hmem c').mp hc' with hc' | rfl
+              · exact absurd hcz' (hnz c' hc')
+              · rfl
+          · simpa using hz
+        · rename_i hz
+          have ht1 : TableOK G hash att two Dom st1 := ht.congr hsame.1 hsame.2.1
           have hcl := hsame.clean two
-          obtain ⟨h1, h2, h3, h4⟩ := ih st1 cs st' children' hms' ht1 (by rw [hcl]; exact hch1) hrun
+          have hnz1 : ∀ c ∈ cs.toList, c.data.bounds.delta ≠ 0 := by
+            intro c hc
+            rcases (hmem c).mp hc with hc | rfl
+            · exact hnz c hc
+            · simpa using hz
+          obtain ⟨h1, h0, h2, h3, h4⟩ := ih st1 cs st' children' hms' ht1 (by rw [hcl]; exact hch1) hnz1 hrun
           rw [hcl] at h2
-          refine ⟨hsame.trans h1, h2, fun c hc => h3 c ((hmem c).mpr (Or.inl hc)), ?_⟩
+          refine ⟨hsame.trans h1, h0, h2, fun c hc => h3 c ((hmem c).mpr (Or.inl hc)), ?_⟩
           rcases h4 with h4 | h4
           · left
             intro m' hm' s' hs'
